@@ -1,22 +1,14 @@
 #!/bin/sh
-# tools/recheck_all.sh [names...]: regression run over the seeded changes - applies each seeded/<name>/patch.diff to /repo,
-# runs the check of the property it was written against (quick tier), undoes it, and prints one line per change.
-# /repo must be clean and no other run may use it meanwhile.
+# tools/recheck_all.sh [-j N] [names...]: regression run over the seeded changes - each seeded/<name>/patch.diff is applied
+# to a scratch worktree (tools/try_patch.sh; /repo is never touched) and the check of the property it was written
+# against runs against it (quick tier); one line per change, N at a time (default 3).
 cd "$(dirname "$0")/.." || exit 2
-git -C /repo status --short | grep -q . && { echo "/repo is not clean"; exit 2; }
+j=3
+[ "$1" = "-j" ] && { j="$2"; shift 2; }
 names="$*"
 [ -z "$names" ] && names=$(ls seeded | grep -v notes.json)
-miss=0
 for name in $names; do
-  [ -f "seeded/$name/patch.diff" ] || continue
-  id=$(echo "$name" | cut -c1-3)
-  git -C /repo apply "$(pwd)/seeded/$name/patch.diff" || { echo "$name: patch does not apply"; continue; }
-  ./check "$id" --tier quick > /tmp/recheck.$$.out 2>&1; rc=$?
-  git -C /repo checkout -q -- .
-  line=$(grep -E 'VIOLATION' /tmp/recheck.$$.out | head -1)
-  echo "$name $id rc=$rc $line"
-  [ $rc -eq 1 ] || miss=$((miss+1))
-done
-rm -f /tmp/recheck.$$.out
-git -C /repo status --short
-echo "not detected by own check: $miss"
+  [ -f "seeded/$name/patch.diff" ] && echo "$name"
+done | xargs -P "$j" -I{} sh -c 'id=$(echo {} | cut -c1-3); tools/try_patch.sh {} seeded/{}/patch.diff $id' | tee /tmp/recheck.$$.lines
+echo "not detected by own check: $(grep -vc "rc=1" /tmp/recheck.$$.lines)"
+rm -f /tmp/recheck.$$.lines
